@@ -14,6 +14,7 @@ ID = "C01"
 LEVEL = "exploration"
 QUICK_SHARDS = 4
 MIN_NONTRIVIAL = 50
+FUZZ_RUNS = 160000     # thorough tier: atheris executions (all children)
 RULE = (
     "Hypothesis byte tape -> recipe of one of the four classes (0-30 atoms, "
     "arbitrary int ids, 1-4 elements, all six descriptor classes valid by "
@@ -231,7 +232,7 @@ def run(ctx):
         ctx.note(case, nontrivial(case, ma, info), labs)
         check_case(ctx, case)
 
-    ctx.hyp("c01", S.tapes(900).map(gen), check, n, shrinker=shrink)
+    ctx.hyp("c01", S.mapped(900, gen), check, n, shrinker=shrink)
 
     # second source: independent pairs (tiny universe / mutants / ring
     # families, unspecified parity excluded) that the brute-force oracle
@@ -253,7 +254,7 @@ def run(ctx):
                  ["via:pair", "pair-isomorphic" if iso_found
                   else "pair-not-isomorphic"])
 
-    ctx.hyp("c01-pairs", S.tapes(1200).map(gen_p), check_p,
+    ctx.hyp("c01-pairs", S.mapped(1200, gen_p), check_p,
             ctx.scale(3000, 150000), shrinker=shrink_pair)
 
     # third source: graphs reached through editing histories
@@ -286,5 +287,5 @@ def run(ctx):
                  ["via:history", f"cls:{case['cls']}"]
                  + [f"hist:{k}" for k in kinds])
 
-    ctx.hyp("c01-history", S.tapes(2500).map(gen_h), check_h,
+    ctx.hyp("c01-history", S.mapped(2500, gen_h), check_h,
             ctx.scale(2500, 100000), shrinker=shrink_history)
